@@ -95,6 +95,13 @@ def _case(draw):
         elif k == 10:
             items.append(f"({ref}, {ref})")
             used.add(ref_key)
+        elif k == 11 and draw(st.booleans()):
+            # the (possibly shadowing) lambda parameter used inside a nested lambda: not the innermost binder frame
+            items.append(f"{p}.xs.Select(lambda x: {p}.xs.Select(lambda y: (x + y + {p}.n, {p})))")
+        elif k == 11 and num and ref_key in ("G1", "v2", "v1"):
+            # first iterable of a comprehension is evaluated in the enclosing scope: the captured name there is frozen
+            items.append(f"[{ref} * 2 for {ref} in {p}.xs.Select(lambda x: x + {ref})]")
+            used.add(ref_key)
         else:
             items.append(f"{p}.n * 2")
     if not items:
@@ -138,6 +145,7 @@ def make(ds):
 
 class _Elem:
     def __init__(self):
+        self._vf_id = 1
         self.n = 5
         self.xs = pyeval.Seq([1, 2, 3])
 
